@@ -82,6 +82,48 @@ def view_transform(c):
                           pick=lambda h: h.cls is not None and h.cls.name == "DataView")
 
 
+def reshape_rule(M, rep, R6, ctx=None):
+    """a read result is reshaped to one element only when it was found to be 0-dimensional (shared with C01: shape)"""
+    if ctx is None:
+        ctx = Ctx(M, coarse=False)
+        ctx.cfg.compose = False
+    RD, WR = io_names(ctx)
+    rdm = ctx.member("DataArray", RD)
+    if rdm is None:
+        rep.bad(R6, "DataArray._read_data", "required mechanism not found")
+    else:
+        bad = None
+        nres = 0
+        for p in ctx.paths(rdm, "DataArray"):
+            if not p.normal:
+                continue
+            reshaped = any(a == "shape" and r[0] != "self" for (r, a), v in p.heap.items() if isinstance(r, tuple)) or \
+                any(x and x[0] == "mcall" and x[1] in ("reshape", "flatten", "ravel") for x in subterms(p.terminal[1].t)) or \
+                any(x and x[0] == "call" and str(x[1]).split(".")[-1] in ("reshape", "atleast_1d", "ravel") for x in subterms(p.terminal[1].t))
+            if not reshaped:
+                continue
+            nres += 1
+            zero_dim = False
+            for a, v in p.decisions:
+                s = show(a)
+                if a[0] == "truthy" and ("shape" in s and "len(" in s or ".ndim" in s) and v is False:
+                    zero_dim = True
+                if a[0] == "eq" and (".ndim" in s or ("shape" in s and "len(" in s)) and a[2] == ("const", 0) and v is True:
+                    zero_dim = True
+                if a[0] == "eq" and "shape" in s and a[2] in (("tuple", ()), ("const", ())) and v is True:
+                    zero_dim = True
+            if not zero_dim:
+                bad = (p, "a read result is reshaped although it was not found to be 0-dimensional: results that merely contain one "
+                       "element (e.g. a 1x1 region) lose their shape")
+        if rdm is not None:
+            atl = any(x and x[0] == "call" and str(x[1]).endswith("atleast_1d") for p in ctx.paths(rdm, "DataArray") for x in subterms(p.terminal[1].t))
+            if atl:
+                bad = None
+        rep.check(R6, "DataArray._read_data", bad is None and nres > 0, bad[1] if bad else "single values are not returned as one-element arrays",
+                  site=rdm.file + ":%d" % rdm.node.lineno, detail=describe_path(bad[0]) if bad else None)
+
+
+
 def run(M, rep, tier, only=None):
     ctx = Ctx(M, coarse=False)
     ctx.cfg.compose = False
@@ -407,39 +449,7 @@ def run(M, rep, tier, only=None):
                   detail=describe_path(bad[0]) if bad else None)
 
     # ---------------------------------------------------------------- R6
-    rdm = ctx.member("DataArray", RD)
-    if rdm is None:
-        rep.bad(R6, "DataArray._read_data", "required mechanism not found")
-    else:
-        bad = None
-        nres = 0
-        for p in ctx.paths(rdm, "DataArray"):
-            if not p.normal:
-                continue
-            reshaped = any(a == "shape" and r[0] != "self" for (r, a), v in p.heap.items() if isinstance(r, tuple)) or \
-                any(x and x[0] == "mcall" and x[1] in ("reshape", "flatten", "ravel") for x in subterms(p.terminal[1].t)) or \
-                any(x and x[0] == "call" and str(x[1]).split(".")[-1] in ("reshape", "atleast_1d", "ravel") for x in subterms(p.terminal[1].t))
-            if not reshaped:
-                continue
-            nres += 1
-            zero_dim = False
-            for a, v in p.decisions:
-                s = show(a)
-                if a[0] == "truthy" and ("shape" in s and "len(" in s or ".ndim" in s) and v is False:
-                    zero_dim = True
-                if a[0] == "eq" and (".ndim" in s or ("shape" in s and "len(" in s)) and a[2] == ("const", 0) and v is True:
-                    zero_dim = True
-                if a[0] == "eq" and "shape" in s and a[2] in (("tuple", ()), ("const", ())) and v is True:
-                    zero_dim = True
-            if not zero_dim:
-                bad = (p, "a read result is reshaped although it was not found to be 0-dimensional: results that merely contain one "
-                       "element (e.g. a 1x1 region) lose their shape")
-        if rdm is not None:
-            atl = any(x and x[0] == "call" and str(x[1]).endswith("atleast_1d") for p in ctx.paths(rdm, "DataArray") for x in subterms(p.terminal[1].t))
-            if atl:
-                bad = None
-        rep.check(R6, "DataArray._read_data", bad is None and nres > 0, bad[1] if bad else "single values are not returned as one-element arrays",
-                  site=rdm.file + ":%d" % rdm.node.lineno, detail=describe_path(bad[0]) if bad else None)
+    reshape_rule(M, rep, R6, ctx)
 
     # ---------------------------------------------------------------- R7
     n = stateless.run(M, rep, R7, only_classes={"DataView", "DataSet"})
